@@ -1,5 +1,6 @@
 ---------------------------- MODULE MCReqParam ----------------------------
 EXTENDS ReqParam, Json
+MCIfVersT == {-1, 0, 6, 7, 9}
 \* export of every walked case with the model's expectation (direction A)
 EmitCase == PrintT(<<"CASE", ToJson([k |-> cs.k, c |-> cs.c, xok |-> last'.xok])>>)
 =============================================================================
